@@ -4,6 +4,8 @@ package main
 
 import (
 	"fmt"
+	"runtime"
+	"strings"
 	"sync"
 	"time"
 
@@ -11,6 +13,8 @@ import (
 	"go.nanomsg.org/mangos/v3/protocol/bus"
 	"go.nanomsg.org/mangos/v3/protocol/pair"
 	"go.nanomsg.org/mangos/v3/protocol/xbus"
+
+	"verifharness/vp"
 )
 
 // C08 — a raw BUS forwarder holds a message it received from member A while A leaves and member C joins; when it then
@@ -240,5 +244,138 @@ func runDialerRedialsAfterLocalRefusal(c *Ctx) {
 		_ = s.Close()
 		_ = a.Close()
 		_ = b.Close()
+	}
+}
+
+// C09 — mangos.Device itself on every ordered pair of the library's 24 sockets, on every socket alone (loop-back, either
+// argument nil), on one socket given twice, and on nil/nil: the error returned and the number of forwarder goroutines
+// started, against Model/DevicePlumb.lean (`dev.plumb`).  A cooked wrapper that does not know OptionRaw at all stands
+// for the "option fails" branch.
+type noRawSock struct{ mangos.Socket }
+
+func (n noRawSock) GetOption(name string) (interface{}, error) {
+	if name == mangos.OptionRaw {
+		return nil, mangos.ErrBadOption
+	}
+	return n.Socket.GetOption(name)
+}
+
+func runDevicePlumbing(c *Ctx) {
+	forwarders := func() int {
+		buf := make([]byte, 1<<20)
+		return strings.Count(string(buf[:runtime.Stack(buf, true)]), "mangos/v3.forwarder(")
+	}
+	desc := func(s mangos.Socket) string {
+		if s == nil {
+			return "-"
+		}
+		r := "e"
+		if v, err := s.GetOption(mangos.OptionRaw); err == nil {
+			if b, ok := v.(bool); ok && b {
+				r = "t"
+			} else {
+				r = "f"
+			}
+		}
+		return fmt.Sprintf("%d:%d:%s", s.Info().Self, s.Info().Peer, r)
+	}
+	// a forwarder whose source socket cannot receive at all (PUB, PUSH) returns at once: it was started but is not seen
+	// alive; `gone` says how many of those the call must have started
+	one := func(s1, s2 mangos.Socket, same bool, what string, gone int) {
+		vp.QuiesceT(500 * time.Millisecond)
+		n0 := forwarders()
+		err := mangos.Device(s1, s2)
+		vp.QuiesceT(500 * time.Millisecond) // forwarders that return at once have gone, the others are parked in RecvMsg
+		n1 := forwarders()
+		obs := ""
+		switch err {
+		case nil:
+			obs = fmt.Sprintf("ok:%d", n1-n0+gone)
+		case mangos.ErrClosed:
+			obs = "closed"
+		case mangos.ErrBadProto:
+			obs = "badproto"
+		case mangos.ErrNotRaw:
+			obs = "notraw"
+		case mangos.ErrBadOption:
+			obs = "opterr"
+		default:
+			obs = "err:" + strings.ReplaceAll(err.Error(), " ", "_")
+		}
+		if err == nil {
+			for _, sk := range []mangos.Socket{s1, s2} {
+				if sk != nil && !strings.HasSuffix(desc(sk), ":t") {
+					c.Violate(fmt.Sprintf("Device(%s) succeeded although one of the sockets (%s) is not a raw socket", what, desc(sk)), map[string]interface{}{"pair": what})
+				}
+			}
+			x, y := s1, s2
+			if x == nil {
+				x = y
+			}
+			if y == nil {
+				y = x
+			}
+			if x.Info().Self != y.Info().Peer || y.Info().Self != x.Info().Peer {
+				c.Violate(fmt.Sprintf("Device(%s) succeeded although the two sockets are not each other's peer protocol", what), map[string]interface{}{"pair": what})
+			}
+		}
+		if err != nil && n1 != n0 {
+			c.Violate(fmt.Sprintf("Device(%s) returned %v and still started %d forwarder goroutine(s)", what, err, n1-n0), map[string]interface{}{"pair": what})
+		}
+		sm := "two"
+		if same {
+			sm = "same"
+		}
+		c.Class("device plumbing "+strings.SplitN(obs, ":", 2)[0], true)
+		c.T.Line("", fmt.Sprintf("dev.plumb %s %s %s", desc(s1), desc(s2), sm), obs)
+	}
+	mk := func(k sockKind) mangos.Socket { s, _ := k.mk(); return s }
+	g := func(ks ...sockKind) int {
+		n := 0
+		for _, k := range ks {
+			if !k.canRecv {
+				n++
+			}
+		}
+		return n
+	}
+	one(nil, nil, false, "nil, nil", 0)
+	for _, a := range allSocks {
+		for _, b := range allSocks {
+			s1, s2 := mk(a), mk(b)
+			one(s1, s2, false, a.name+", "+b.name, g(a, b))
+			_ = s1.Close()
+			_ = s2.Close()
+		}
+		s := mk(a)
+		one(s, nil, false, a.name+", nil", g(a))
+		_ = s.Close()
+		s = mk(a)
+		one(nil, s, false, "nil, "+a.name, g(a))
+		_ = s.Close()
+		s = mk(a)
+		one(s, s, true, a.name+" twice", g(a))
+		_ = s.Close()
+		if a.raw {
+			// a socket whose OptionRaw cannot be read, on either side of its proper counterpart
+			for _, b := range allSocks {
+				if b.raw {
+					s1, s2 := mk(a), mk(b)
+					if s1.Info().Peer == s2.Info().Self {
+						one(noRawSock{s1}, s2, false, a.name+" (no OptionRaw), "+b.name, 0)
+						_ = s1.Close()
+						_ = s2.Close()
+						s1, s2 = mk(a), mk(b)
+						one(s1, noRawSock{s2}, false, a.name+", "+b.name+" (no OptionRaw)", 0)
+					}
+					_ = s1.Close()
+					_ = s2.Close()
+				}
+			}
+		}
+	}
+	vp.QuiesceT(time.Second)
+	if n := forwarders(); n != 0 {
+		c.Violate(fmt.Sprintf("Device: %d forwarder goroutine(s) remain after every socket handed to Device was closed", n), map[string]interface{}{})
 	}
 }
